@@ -1,7 +1,7 @@
 SPECIFICATION Spec
 CONSTANTS
   Indexes = {1}
-  Ids = {1, 2, 3}
+  Ids = {1, 2}
   Toks = {"a", "b"}
   Metrics = {"f"}
   Dim = 2
@@ -14,10 +14,11 @@ CONSTANTS
   AsCodedDelTree = FALSE
   AsCodedBatch = FALSE
   AtLeastOne = TRUE
-  WithTxn = FALSE
+  WithTxn = TRUE
   WithCancel = FALSE
-  WithAppend = FALSE
+  WithAppend = TRUE
 INVARIANTS
+  CommittedOpenIffFresh
   ValidWhenOpen
   OpenIffFresh
   TreeCount
@@ -29,5 +30,8 @@ INVARIANTS
   NoPanic
   NoInternalError
 PROPERTIES
+  BuildKeepsItems
+  RejectedChangesNothing
+  MetricChange
   OthersUntouched
 CHECK_DEADLOCK FALSE
